@@ -64,8 +64,11 @@ def build(types, defined=()):
         # replaced everywhere, so what only its fields reach is not part of the surface either
         plain = "pub struct %s {\n    pub a: i32,\n}" % n
         if plain in text:
-            text = text.replace(plain, "pub struct %s {\n    pub a: i32,\n    pub via: OnlyVia%s,\n}" % (n, n), 1)
+            text = text.replace(plain, "pub struct %s {\n    pub a: i32,\n    pub via: OnlyVia%s,\n    pub shared: Vec<SharedWith%s>,\n}" % (n, n, n), 1)
             text += rg.struct_src("OnlyVia" + n, [("deep", "i32")])
+            # ... and of a type that the rest of the API uses as well: that one is not named in the mapping and stays as it is
+            text += rg.struct_src("SharedWith" + n, [("zone", "String"), ("offset", "i32")])
+            text += rg.command_src("uses_shared_%s" % n.lower(), [("s", "SharedWith" + n)], "Option<SharedWith%s>" % n)
     return [(files[0][0], text + OTHERS)]
 
 
